@@ -74,7 +74,17 @@ META = {
                 "largest intermediate magnitude of the documented formula (x (|u|+1) for Tolerant's exp, x4 for the user "
                 "polynomials, plus the absolute error eps(1+|alpha|) of alpha = 1 - sqrt(1+t))",
                 "the kernel/corrector plumbing of GN/LM (__init__, RobustModel.loss, corrector index in step) is modelled and "
-                "proved consistent, but tied to optimizer.py by sampling only (select stream)"],
+                "proved consistent, but tied to optimizer.py by sampling only (select stream)",
+                "'finite' is decided on floats by the harness (kernel-finite / corrector-finite oracles on the overflow-free input domain); "
+                "over the reals the model can only state that a value is returned (kernels_return_value)",
+                "step_direction_is_total_loss_gradient covers the DENSE, UNWEIGHTED path with kernel= given and corrector=None only. "
+                "Outside C09's quantifier and not covered: weight= (RobustModel.loss ignores the weight, so the direction J'^T W R' is the "
+                "gradient of the reported loss only for W = I; modelled as JtWR with fastTriggs_weighted_grad / scalar_weight_direction; the "
+                "harness exercises scalar weights w*I, divides them out of the GN system and skips the descent-direction oracle when w != 1), "
+                "LM's sparse=True branch (correctors never applied; needs the optional bae backend, not exercised), user-supplied correctors "
+                "(item-level theorems + select-index oracle)",
+                "Arctan has no constructor check: delta = 0 is accepted by the code and yields NaN at x = 0; the documented formula divides "
+                "by delta^2, so delta = 0 is outside the documented domain (theorems carry delta != 0; not exercised)"],
 }
 
 BUILTIN = ["huber", "pseudohuber", "cauchy", "softlone", "arctan", "tolerant", "scale"]
@@ -1231,9 +1241,11 @@ def select_setup(case):
 
 def parse_select(rep, nres):
     st, toks = common.parse_reply(rep)
-    if st != "ok" or len(toks) != 2 * nres:
+    if st != "ok" or len(toks) != 2 * nres + 1:
         raise common.InfraError(f"select reply: {rep}")
-    return toks[:nres], toks[nres:]
+    if toks[-1] == "E1":          # empty kernel list: the model predicts IndexError for loss and step
+        return ["-"] * nres, ["-"] * nres
+    return toks[:nres], toks[nres:2 * nres]
 
 
 def sel_spec(tok, kspecs):
@@ -2607,6 +2619,8 @@ def corner_corpus():
         kforms = [None, ["one", 1], ["many", [2]], ["many", list(range(nres))], ["many", [None] + list(range(1, nres))] if nres > 1 else ["many", [None]]]
         if nres == 3:
             kforms.append(["many", [0, 1]])
+        kforms.append(["many", []])                                  # empty list: IndexError in step (model: emptyKernelList)
+        kforms.append(["many", list(range(nres)) + [0, None]])       # longer than the number of residuals: extras ignored
         for kf in kforms:
             cforms = [None, ["one", 3], ["many", [5]], ["many", [None] * nres], ["many", [(2 * j + j % 2) for j in range(nres)]]]
             if kf is not None and kf[0] == "many" and len(kf[1]) == nres:
